@@ -25,9 +25,11 @@
   is taken as the identity on the `KeyBlockV` shape.
 -/
 import KmipModel.Lemmas.KeyAccessLemmas
+import KmipModel.Lemmas.KeyWire
 import KmipModel.Props.C03
+import KmipModel.Props.C01
 namespace Kmip.C14
-open Kmip Kmip.Key
+open Kmip Kmip.Key Kmip.Key.Wire
 
 /-! ## 1. Accessor totality -/
 
@@ -493,5 +495,138 @@ example : roundtrip Toy.crypto.toCryptoOps kfTransparent (1, 0) .xml (.ecPub { c
 example : ∃ o, registerF Toy.crypto.toCryptoOps kfSEC1 (1, 4) (.ecPriv { crv := 3, d := 9 }) = .ok o :=
   register_accepts Toy.crypto _ _ _ (by decide)
     (show (0 : Int) < 9 ∧ (9 : Int) < Toy.curveOrder 13 by decide) (show curveSupported 13 = true by decide)
+
+/-! ## 6. Structure-level binary transport of a key object = the C01 round trip
+
+`objVal o` is the Go object as a value of the generic typed codec of `Model/Plan.lean` over the regenerated schema
+(field by field, in declaration order: `Lemmas/KeyWire.lean`); `valObj` reads a decoded value back.  Which TTLV
+element each field becomes, the `KeyMaterial` slot chosen BY THE KEY FORMAT on decoding, `omitempty` of the
+compression type, the order of P, Q, PrimeExponentP…, are then those of the codec proved in C01 — no longer "taken as
+the identity".  `Conforms` (C01: executable well-formedness walk + representable lengths) stays a hypothesis; it is
+discharged by kernel evaluation on the instances below, and its failure on an object whose material sits in the slot
+of another format is shown too. -/
+
+/-- the dynamic type under which the regenerated schema knows the object type. -/
+def objDyn (o : Obj) : Nat := (Gen.schema.objectDyn o.typeCode).getD 0
+
+/-- 16. an object whose image conforms to the schema: `ttlv.MarshalTTLV` succeeds, `ttlv.UnmarshalTTLV` of the
+    bytes returns a value that reads back as the SAME object. -/
+theorem object_wire_roundtrip (o : Obj) (hw : Wireable o) (v : Val) (hv : objVal o = some v)
+    (hc : Conforms Gen.schema (objDyn o) 0 v) :
+    ∃ bs v', marshal Gen.schema (objDyn o) 0 v = .ok bs ∧ unmarshal Gen.schema (objDyn o) 0 bs = .ok v' ∧
+      valObj o.typeCode v' = some o := by
+  obtain ⟨bs, hm, hu, _⟩ := C01.roundtrip Gen.schema C01.gen_unambiguous (objDyn o) 0 v hc
+  exact ⟨bs, _, hm, hu, valObj_of_contentEq o hw v _ hv (C01.norm_content _ _ _ _)⟩
+
+/-- 17. C14 through the binary codec: a valid key, registered in a format of its kind; the object encoded and
+    decoded by the typed codec of C01; the accessors applied to what was decoded give the key. -/
+theorem key_wire_roundtrip (C : Crypto) (f : Nat) (ver : Nat × Nat) (key : AnyKey C.toCryptoOps)
+    (hvk : Valid key) (o : Obj) (h : registerF C.toCryptoOps f ver key = .ok o)
+    (v : Val) (hv : objVal o = some v) (hc : Conforms Gen.schema (objDyn o) 0 v) :
+    ∃ bs v' o', marshal Gen.schema (objDyn o) 0 v = .ok bs ∧ unmarshal Gen.schema (objDyn o) 0 bs = .ok v' ∧
+      valObj o.typeCode v' = some o' ∧ extract C.toCryptoOps key (respOf o') = .ok key.content := by
+  obtain ⟨bs, v', hm, hu, hr⟩ := object_wire_roundtrip o (registerF_wireable _ f ver key o h) v hv hc
+  exact ⟨bs, v', o, hm, hu, hr, extract_register C f ver key hvk o h⟩
+
+/-- every object a builder produces has an image (the builders produce the four key object types). -/
+theorem registered_has_image (C : CryptoOps) (f : Nat) (ver : Nat × Nat) (key : AnyKey C) (o : Obj)
+    (h : registerF C f ver key = .ok o) : ∃ v, objVal o = some v := by
+  cases key with
+  | rsaPriv k =>
+    simp only [registerF, registerRsaPrivF, rawKeyBytes] at h
+    repeat' split at h
+    all_goals cases h <;> exact ⟨_, rfl⟩
+  | rsaPub k =>
+    simp only [registerF, registerRsaPubF, rawKeyBytes] at h
+    repeat' split at h
+    all_goals cases h <;> exact ⟨_, rfl⟩
+  | ecPriv k =>
+    simp only [registerF, registerEcPrivF, rawKeyBytes] at h
+    repeat' split at h
+    all_goals cases h <;> exact ⟨_, rfl⟩
+  | ecPub k =>
+    simp only [registerF, registerEcPubF, rawKeyBytes] at h
+    repeat' split at h
+    all_goals cases h <;> exact ⟨_, rfl⟩
+  | sym alg v =>
+    simp only [registerF, registerSymF] at h
+    repeat' split at h
+    all_goals cases h <;> exact ⟨_, rfl⟩
+  | secret kind v =>
+    simp only [registerF, registerSecret, Res.ok.injEq] at h
+    subst h
+    exact ⟨_, rfl⟩
+
+/-! ### instances: `Conforms` holds on what the builders produce (kernel evaluation over `Gen.schema`)
+
+(`conforms_of_checks_big`: the C01 checker with the lengths of big integers bounded through `Nat.log2`, since the
+well-founded `natToBytesBE` does not reduce in the kernel.) -/
+
+def imageOf (r : Res Obj) : Val :=
+  match r with
+  | .ok o => (objVal o).getD (.ptr none)
+  | _ => .ptr none
+
+/-- toy RSA private key, transparent format (P before Q, optional CRT values absent). -/
+def exRsaT : Res Obj := registerF Toy.ops kfTransparent (1, 4) (.rsaPriv { n := 35, d := 5, primes := [5, 7] })
+/-- EC private key, transparent, below 1.3: format 14, slot TransparentECDSAPrivateKey. -/
+def exEc12 : Res Obj := registerF Toy.ops kfTransparent (1, 2) (.ecPriv { crv := 1, d := 9 })
+/-- the same from 1.3 on: format 20, slot TransparentECPrivateKey. -/
+def exEc13 : Res Obj := registerF Toy.ops kfTransparent (1, 3) (.ecPriv { crv := 1, d := 9 })
+/-- EC public key, transparent: compression type 1 and a Q-string. -/
+def exEcPub : Res Obj := registerF Toy.ops kfTransparent (1, 4) (.ecPub { crv := 3, x := 2, y := 3 })
+/-- a DER blob (PKCS#8) in `KeyMaterial.Bytes`. -/
+def exPkcs8 : Res Obj := registerF Toy.ops kfPKCS8 (1, 0) (.rsaPriv { n := 35, d := 5, primes := [5, 7] })
+def exSymT : Res Obj := registerF Toy.ops kfTransparent (1, 4) (.sym 3 [0, 0x80, 0xFF, 1])
+def exSecret : Res Obj := registerF Toy.ops kfRAW (1, 4) (.secret 1 [0x70, 0x77])
+
+set_option maxRecDepth 100000 in
+theorem exRsaT_conforms : Conforms Gen.schema 61 0 (imageOf exRsaT) :=
+  conforms_of_checks_big _ _ _ _ (by decide +kernel) (by decide +kernel)
+set_option maxRecDepth 100000 in
+theorem exEc12_conforms : Conforms Gen.schema 61 0 (imageOf exEc12) :=
+  conforms_of_checks_big _ _ _ _ (by decide +kernel) (by decide +kernel)
+set_option maxRecDepth 100000 in
+theorem exEc13_conforms : Conforms Gen.schema 61 0 (imageOf exEc13) :=
+  conforms_of_checks_big _ _ _ _ (by decide +kernel) (by decide +kernel)
+set_option maxRecDepth 100000 in
+theorem exEcPub_conforms : Conforms Gen.schema 60 0 (imageOf exEcPub) :=
+  conforms_of_checks _ _ _ _ (by decide +kernel) (by decide +kernel)
+set_option maxRecDepth 100000 in
+theorem exPkcs8_conforms : Conforms Gen.schema 61 0 (imageOf exPkcs8) :=
+  conforms_of_checks _ _ _ _ (by decide +kernel) (by decide +kernel)
+set_option maxRecDepth 100000 in
+theorem exSymT_conforms : Conforms Gen.schema 59 0 (imageOf exSymT) :=
+  conforms_of_checks _ _ _ _ (by decide +kernel) (by decide +kernel)
+set_option maxRecDepth 100000 in
+theorem exSecret_conforms : Conforms Gen.schema 64 0 (imageOf exSecret) :=
+  conforms_of_checks _ _ _ _ (by decide +kernel) (by decide +kernel)
+
+/-- the composed statement on an instance: the toy RSA key in the transparent format through the binary codec. -/
+example : ∃ bs v' o', marshal Gen.schema 61 0 (imageOf exRsaT) = .ok bs ∧ unmarshal Gen.schema 61 0 bs = .ok v' ∧
+    valObj 4 v' = some o' ∧
+    extract Toy.ops (.rsaPriv { n := 35, d := 5, primes := [5, 7] }) (respOf o') =
+      .ok (.rsaPriv { n := 35, d := 5, primes := [5, 7] }) :=
+  key_wire_roundtrip Toy.crypto kfTransparent (1, 4) (.rsaPriv { n := 35, d := 5, primes := [5, 7] })
+    (show Toy.rsaValidate { n := 35, d := 5, primes := [5, 7] } = true by decide) _ rfl _ rfl exRsaT_conforms
+
+/-- and the EC private key on each side of the 1.3 switch. -/
+example : ∃ bs v' o', marshal Gen.schema 61 0 (imageOf exEc12) = .ok bs ∧ unmarshal Gen.schema 61 0 bs = .ok v' ∧
+    valObj 4 v' = some o' ∧ extract Toy.ops (.ecPriv { crv := 1, d := 9 }) (respOf o') = .ok (.ecPriv { crv := 1, d := 9 }) :=
+  key_wire_roundtrip Toy.crypto kfTransparent (1, 2) (.ecPriv { crv := 1, d := 9 })
+    (show (0 : Int) < 9 ∧ (9 : Int) < Toy.curveOrder 7 by decide) _ rfl _ rfl exEc12_conforms
+example : ∃ bs v' o', marshal Gen.schema 61 0 (imageOf exEc13) = .ok bs ∧ unmarshal Gen.schema 61 0 bs = .ok v' ∧
+    valObj 4 v' = some o' ∧ extract Toy.ops (.ecPriv { crv := 1, d := 9 }) (respOf o') = .ok (.ecPriv { crv := 1, d := 9 }) :=
+  key_wire_roundtrip Toy.crypto kfTransparent (1, 3) (.ecPriv { crv := 1, d := 9 })
+    (show (0 : Int) < 9 ∧ (9 : Int) < Toy.curveOrder 7 by decide) _ rfl _ rfl exEc13_conforms
+
+/-- `Conforms` is not a formality: a private key object that announces format 20 (TransparentECPrivateKey) but
+    carries its material in the slot of format 14 (what a builder getting the 1.3 switch half wrong would produce)
+    is NOT a well-formed value — the decoder, which chooses the slot by the format, could not return it. -/
+def wrongSlot : Obj :=
+  .privateKey (plainKB fTransparentECPrivateKey 0 algECDSA 256 { ecdsaPriv := some { curve := 7, d := 9 } })
+
+set_option maxRecDepth 100000 in
+example : (normTop Gen.schema 61 0 ((objVal wrongSlot).getD (.ptr none))).isSome = false := by decide +kernel
 
 end Kmip.C14
